@@ -28,6 +28,7 @@ pub struct Compiled {
     pub go_text: String,
     pub go: compiler::go::goast::File,
     pub tast: compiler::tast::File,
+    pub genv: compiler::env::GlobalTypeEnv,
 }
 
 #[allow(dead_code, unused_imports, clippy::all)]
@@ -94,6 +95,7 @@ mod real {
             go_text,
             go: compilation.go,
             tast: compilation.tast,
+            genv: compilation.genv,
         })))
     }
 
